@@ -181,10 +181,10 @@ def rand_record(rng):
         if cid == 0x0225:
             size = rng.choice([7, 7, 6, 1, 2, 3, 5, 8, 10])
     elif r < 0.8:
-        cid = rng.choice([0x0001, 0x00FF, 0x0211, 0x0300, 0xFFFF, 0x0041, rng.randrange(65536)])
+        cid = rng.choice([0x0000, 0x0000, 0x0001, 0x00FF, 0x0211, 0x0300, 0xFFFF, 0x0041, rng.randrange(65536)])
         size = rng.randint(1, 10)
     elif r < 0.92:
-        cid = rng.choice(KNOWN_IDS + [0x0300])
+        cid = rng.choice(KNOWN_IDS + [0x0300, 0x0000])
         size = 0
     else:
         cid = 0x0225
